@@ -91,6 +91,17 @@ def exists(defect):
     return None
 
 
+def exists_inball(defect, r, size):
+    """In-balls of flat shapes are tiny compared with the shape: 'clearly none' also requires the tangency defect to be a
+    clear fraction of the *size* (1e-2), not only of the radius - a needle-thin solid whose best ball misses tangency by 2 % of
+    its own radius but by 1e-4 of the solid's size is within the margin of any existence test that scales with the solid
+    (found by the thorough tier, seed 1: one 5-vertex solid of 30 000), hence not judged."""
+    ex = exists(defect)
+    if ex is False and not (np.isfinite(defect) and defect * r > 1e-2 * size) and np.isfinite(defect):
+        return None
+    return ex
+
+
 def poly_edge_planes(V, normal):
     """Outward edge normals (in-plane) and offsets of a polygon, orientation-aware."""
     V = np.asarray(V, float)
@@ -243,7 +254,7 @@ def setup(rec, tier):
                 N, o, n, on, E = poly_edge_planes(V, np.asarray(s.normal, float))
                 c, r, defect = in_fit(N, o, n, on)
                 convex = bool(np.all((N @ V.T - o[:, None]) <= 1e-9 * gen.diameter(V)))
-                return V, N, o, (exists(defect) if convex else None), defect, (n, on), E
+                return V, N, o, (exists_inball(defect, r, gen.diameter(V)) if convex else None), defect, (n, on), E
             faces = [[int(i) for i in f] for f in s.faces]
             tr = [V[f] for f in faces]
             N = []
@@ -256,7 +267,7 @@ def setup(rec, tier):
             o = np.array([N[i] @ tr[i][0] for i in range(len(tr))])
             c, r, defect = in_fit(N, o)
             convex = bool(np.all((N @ V.T - o[:, None]) <= 1e-9 * gen.diameter(V)))
-            return V, N, o, (exists(defect) if convex else None), defect, None, None
+            return V, N, o, (exists_inball(defect, r, gen.diameter(V)) if convex else None), defect, None, None
 
         def post(s, a, k, res, tok):
             V, N, o, ex, defect, plane, E = facts(s)
